@@ -3461,8 +3461,10 @@ coap_handle_response_send_block(coap_session_t *session, coap_pdu_t *sent,
         if (!coap_add_block_b_data(pdu,
                                    lg_xmit->length,
                                    lg_xmit->data,
-                                   &block))
+                                   &block)) {
+          coap_delete_pdu(pdu);
           goto fail_body;
+        }
         lg_xmit->b.b1.bert_size = block.chunk_size;
         coap_ticks(&lg_xmit->last_sent);
 #if COAP_Q_BLOCK_SUPPORT
